@@ -73,7 +73,7 @@ Fixpoint mon_steps (i : nat) (l : list (nat * nat)) : list (nat * nat) :=
 (** ** Cases *)
 Inductive hcase :=
 | CX (c : xcase)
-| CGX (g : gx_genesis) (v x : nat)
+| CGX (g : gx_genesis) (v x : nat) (now : N) (then_steps : list xstep_obs)
 | CGA (l : list ga_pair) (v x : nat)
 | CGR (g : gr_genesis) (v x : nat)
 | CRV (h : hist)
@@ -87,7 +87,11 @@ Definition cmp_gen (vm xm : nat) (v x : nat) : list (nat * nat) :=
 Definition cmp_case (c : hcase) : list (nat * nat) :=
   match c with
   | CX c => cmp_xsteps (xc_now c) 0 [] (xc_steps c)
-  | CGX g v x => cmp_gen (oclass (gx_validate g)) (oclass (gx_init g)) v x
+  | CGX g v x now steps =>
+      match cmp_gen (oclass (gx_validate g)) (oclass (gx_init g)) v x with
+      | [] => if Nat.eqb v 0 && Nat.eqb x 0 then cmp_xsteps now 1 (gx_state g) steps else []
+      | l => l
+      end
   | CGA l v x => cmp_gen (oclass (ga_validate l)) (oclass (ga_init l)) v x
   | CGR g v x => cmp_gen (oclass (gr_validate g)) (oclass (gr_init_genesis g)) v x
   | CRV h => map (fun m => (fst m, (20 + snd m)%nat)) (cmp_hist h)
@@ -97,7 +101,8 @@ Definition cmp_case (c : hcase) : list (nat * nat) :=
 Definition mon_case (c : hcase) : list (nat * nat) :=
   match c with
   | CX c => mon_steps 0 (map (fun o => (xo_v o, xo_x o)) (xc_steps c))
-  | CGX _ v x | CGA _ v x | CGR _ v x => mon_steps 0 [(v, x)]
+  | CGX _ v x _ steps => mon_steps 0 ((v, x) :: map (fun o => (xo_v o, xo_x o)) steps)
+  | CGA _ v x | CGR _ v x => mon_steps 0 [(v, x)]
   | CRV h => map (fun m => (fst m, 11%nat)) (filter (fun m => Nat.eqb (snd m) 11) (mon_hist h))
   | CAG c => mon_steps 0 (map (fun o => (ao_v o, ao_x o)) (ac_steps c))
   end.
